@@ -33,7 +33,7 @@ def RULE(tier):
         "of length <= 2 over 9 scalars, sets/frozensets, dicts (<= 2 items, both insertion orders), depth-2 nestings over 14 representative "
         "containers, a self-referential list; numpy: EVERY 0/1 filling of shapes (),(1,),(2,),(4,),(2,2),(1,2),(2,1) x 12 dtypes (i1,<i2,>i2,i8,u8,"
         "f4,f8,bool,M8[s],M8[D],S1,U1) x layouts (C, F, transposed view, [::2] view of a longer buffer, reversed view, broadcast stride 0, memmap); "
-        "object arrays over {'a','b','c','a-b','b-c','-','',b'a'} of length <= 2 (+3 for the dash family); pandas Series/Index/MultiIndex/"
+        "structured arrays over 6 record dtypes with equal item sizes; object arrays over {'a','b','c','a-b','b-c','-','',b'a'} of length <= 2 (+3 for the dash family); pandas Series/Index/MultiIndex/"
         "Categorical/DataFrame over the same cells incl. every column construction order (block placement); dataclasses, partials, lambdas. "
         "Oracle: token(a)==token(b) => canon(a)==canon(b) for all pairs; token stable under repeat/deepcopy/pickle/rebuild/hash seed. "
         "non-trivial = every value (each takes part in the all-pairs grouping)."
@@ -47,6 +47,7 @@ DTYPES = ["i1", "<i2", ">i2", "i8", "u8", "f4", "f8", "bool", "M8[s]", "M8[D]", 
 SHAPES = [(), (1,), (2,), (4,), (2, 2), (1, 2), (2, 1)]
 LAYOUTS = ["C", "F", "T", "step2", "rev", "bcast", "memmap"]
 OSTR = ["a", "b", "c", "a-b", "b-c", "-", "", b"a"]
+STRUCT_DTYPES = [[("x", "<i4"), ("y", "<i4")], [("lon", "<i4"), ("lat", "<i4")], [("x", "<i4"), ("y", "<f4")], [("x", "<i8")], [("x", "<i4"), ("y", "<i4"), ("z", "<i4")], [("y", "<i4"), ("x", "<i4")]]
 
 
 def f_plain(x, y=0):
@@ -138,6 +139,11 @@ def descriptors():
                     if lay == "memmap" and not (DTYPES[di] in ("i8", "f8") and shp in ((2,), (2, 2))):
                         continue
                     out.append(("nd", si, fill, di, lay))
+    # structured / record dtypes: same bytes, different field names or field types
+    for sd in range(len(STRUCT_DTYPES)):
+        for fill in range(4):
+            for shp in ((), (2,)):
+                out.append(("struct", sd, fill, shp))
     # object arrays
     for L in (0, 1, 2):
         for t in itertools.product(range(len(OSTR)), repeat=L):
@@ -259,6 +265,14 @@ def build(d):
             m[...] = a
             m.flush()
             return m
+    if k == "struct":
+        _, sd, fill, shp = d
+        dt = np.dtype(STRUCT_DTYPES[sd])
+        n = 1 if shp == () else shp[0]
+        raw = np.zeros(n * dt.itemsize, dtype="u1")
+        raw[:: 4] = [(fill >> (i % 2)) & 1 for i in range(len(raw[::4]))]
+        a = raw.view(dt)
+        return a[0] if shp == () else a.copy()
     if k == "obj":
         return np.array([OSTR[i] for i in d[1]], dtype=object)
     if k == "obj2d":
@@ -346,9 +360,13 @@ def canon(x, _seen=None):
         s2 = dict(_seen)
         s2[id(x)] = len(s2)
         return ("dict", frozenset((canon(k, s2), canon(v, s2)) for k, v in x.items()))
+    if isinstance(x, np.void):
+        return ("void", str(x.dtype.descr), canon(x.item()))
     if isinstance(x, np.ndarray):
         kind = "memmap" if isinstance(x, np.memmap) else "nd"
         a = np.asarray(x)
+        if a.dtype.names:
+            return ("nd-struct", str(a.dtype.descr), a.shape, tuple(canon(v) for v in a.ravel().tolist()))
         if a.dtype == object:
             cells = tuple(canon(v) for v in a.ravel().tolist())
         elif a.dtype.kind == "M":
@@ -387,7 +405,7 @@ def family(d):
     return k
 
 
-PLAIN = ("scalar", "list", "tuple", "set", "frozenset", "dict", "nest", "nd", "obj", "series", "index", "multiindex", "categorical", "frame", "frame2")
+PLAIN = ("struct", "scalar", "list", "tuple", "set", "frozenset", "dict", "nest", "nd", "obj", "series", "index", "multiindex", "categorical", "frame", "frame2")
 
 
 def shards(tier):
